@@ -18,7 +18,7 @@ from . import joseops as J
 from . import refimpl as R
 from . import keys as K
 
-ALGS = [("HS256", "oct256"), ("HS384", "oct384"), ("HS512", "oct512"), ("RS256", "RSA2048"), ("RS384", "RSA2048"), ("RS512", "RSA2050"),
+ALGS = [("HS256", "oct256"), ("HS384", "octws"), ("HS512", "oct512"), ("RS256", "RSA2048"), ("RS384", "RSA2048"), ("RS512", "RSA2050"),
         ("PS256", "RSA2048"), ("PS384", "RSA2050"), ("PS512", "RSA2048"), ("ES256", "EC:P-256"), ("ES384", "EC:P-384"),
         ("ES512", "EC:P-521"), ("ES256K", "EC:secp256k1"), ("EdDSA", "OKP:Ed25519"), ("EdDSA", "OKP:Ed448")]
 OTHER = {"HS256": "HS384", "HS384": "HS512", "HS512": "HS256", "RS256": "PS256", "RS384": "RS512", "RS512": "PS512", "PS256": "RS256",
@@ -270,6 +270,7 @@ def run(ctx: Ctx) -> None:
     from . import inflight, c20
     from .common import pmap
     ctx.evaluations += inflight.run(ctx, "C01")
+    ctx.evaluations += inflight.run_noprot(ctx)
     spairs = [(k, a, b, 1, ctx.seed, 20 if thorough else 4) for k in (("oct256", "EC:P-256", "RSA2048") if thorough else ("oct256", "EC:P-256"))
               for a, b in (("verify_forged", "verify"), ("verify_forged", "verify2"), ("verify_forged", "verify_forged"), ("verify_forged", "sign"))]
     for (kind, a, b, na, nb), n, found in pmap(c20.explore, spairs, chunksize=1, procs=8):
